@@ -424,9 +424,13 @@ class Actor:
             return o.set_initial(self.target(op["x"]), self.guess(op["g"]))
         if k == "callback":
             log = self.hidden.setdefault("cb_log", [])
+            hidden = self.hidden
 
             def cb(it, sol):
                 log.append(it)
+                hook = hidden.get("cb_hook")  # set by the world: re-entry from inside a running solve
+                if hook is not None:
+                    hook(it, sol)
 
             return o.callback(cb)
         raise ValueError("not a specification op: %r" % (k,))
